@@ -453,7 +453,9 @@ var kNames = []string{"empty", "other:same-ref", "other:different-ref", "other:s
 
 func others(ver string, k int, wref interface{}) []J {
 	r, isRef := wref.(J)
-	mk := func(name, ns string, w interface{}) J { return mkObj(ver, name, ns, nil, w, simpleStrategy(ver), "Healthy") }
+	mk := func(name, ns string, w interface{}) J {
+		return mkObj(ver, name, ns, nil, w, simpleStrategy(ver), "Healthy")
+	}
 	same := func(name string) J { return mk(name, reqNS, wref) }
 	deleting := func(name string) J {
 		o := same(name)
